@@ -130,8 +130,22 @@ def isFallbackSite (sites : List Site) (i : Nat) : Bool :=
 def inDomain (sites : List Site) (r : Req) : Bool :=
   wfHost (lower r.host) && r.path.head? == some cSlash && sites.all (fun s => wfHost (lower (keyHost (vhostOf s.key))))
 
+/-- `/.well-known/acme-challenge/` -/
+def acmePrefix : Bytes := [47, 46, 119, 101, 108, 108, 45, 107, 110, 111, 119, 110, 47, 97, 99, 109, 101, 45, 99, 104, 97, 108, 108, 101, 110, 103, 101, 47]
+
+def asciiOnly (s : Bytes) : Bool := s.all (· < 128)
+
+/-- Where the property is judged on the implementation's answers: the domain of the refinement
+theorem, and in addition
+  * ASCII host spellings only — the model lower-cases ASCII letters, Go's `strings.ToLower` also maps
+    non-ASCII letters (and replaces invalid UTF-8), so hosts with bytes ≥ 0x80 are outside the model;
+  * not an ACME HTTP-challenge request: `serveHTTP` hands `/.well-known/acme-challenge/…` to the
+    certificate issuer before (and instead of) the site's handlers; that interception is out of scope. -/
+def judged (sites : List Site) (r : Req) : Bool :=
+  inDomain sites r && asciiOnly r.host && sites.all (fun s => asciiOnly s.key) && !acmePrefix.isPrefixOf r.path
+
 def verdict (sites : List Site) (r : Req) (o : Outcome) : String :=
-  if !inDomain sites r then "ok"
+  if !judged sites r then "ok"
   else
     match specRoute sites r, o with
     | .site i p, .site j q =>
